@@ -75,7 +75,7 @@ type mHandle struct {
 	desc string
 }
 
-func (h mHandle) ReportCount(v int64)         { h.c.add("%s count %d", h.desc, v) }
+func (h mHandle) ReportCount(v int64) { h.c.add("%s count %d", h.desc, v) }
 func (h mHandle) ReportGauge(v float64) {
 	h.c.add("%s gauge %v bits %x", h.desc, v, math.Float64bits(v))
 }
